@@ -32,6 +32,7 @@ type mwCase struct {
 	RespAccess bool   `json:"respAccess"`
 	RespAction string `json:"respAction"`
 	Ctl        string `json:"ctl"`
+	BadCT      bool   `json:"badct"`
 	Body       int    `json:"body"`
 	Known      bool   `json:"known"`
 	Script     []mwOp `json:"script"`
@@ -170,7 +171,11 @@ func C18(run *vf.Run) {
 			rec.mu.Lock()
 			rec.invoked[id] = true
 			rec.mu.Unlock()
-			w.Header().Set("Content-Type", "text/plain")
+			if r.Header.Get("X-BadCT") == "1" {
+				w.Header().Set("Content-Type", "text/plain; charset") // a parameter section that does not parse
+			} else {
+				w.Header().Set("Content-Type", "text/plain")
+			}
 			w.Header().Set("X-Handler", "h-"+id)
 			off := 0
 			for _, part := range strings.Split(r.Header.Get("X-Script"), ",") {
@@ -250,6 +255,9 @@ func C18(run *vf.Run) {
 		req, _ := http.NewRequest("POST", s.ts.URL+"/p", rd)
 		req.Header.Set("X-Case", id)
 		req.Header.Set("X-Script", scriptString(e.C.Script))
+		if e.C.BadCT {
+			req.Header.Set("X-BadCT", "1")
+		}
 		req.Header.Set("Content-Type", "text/plain")
 		resp, err := client.Do(req)
 		if err != nil {
